@@ -363,3 +363,85 @@ theorem final_all_changeable (swr : Swr) (sc : Sched) (inp : Input) (hne : stops
   exact hsync p (List.mem_of_getElem? hp)
 
 end Kvass.Coord
+
+namespace Kvass.Coord
+open Kvass Kvass.Spec
+
+/-- an eligible, non-zero-size, discovered target that no shard is planned to scrape after a full,
+    crash-free cycle forces the scale-up branch: the final plan is the one after the assignment
+    stage, the request is `tryScaleUp` of it with a non-negative need, clamped -/
+theorem up_branch_of_unplaced (swr : Swr) (sc : Sched) (inp : Input) (hne : stopsEarly inp = false)
+    (hnn : ∀ k, 0 ≤ (globalOf (infos0 inp) inp.explore k).series ∧ 0 ≤ (globalOf (infos0 inp) inp.explore k).total)
+    (hfull : ∀ k ∈ inp.active, k ∈ sc.assign)
+    (h : Hash) (ha : h ∈ inp.active)
+    (hskip : Gen.assignSkip (globalOf (infos0 inp) inp.explore h) = false)
+    (hbig : Gen.tooBig inp.opt (globalOf (infos0 inp) inp.explore h) = false)
+    (hsz : 0 < (globalOf (infos0 inp) inp.explore h).series + (globalOf (infos0 inp) inp.explore h).total)
+    (hun : ∀ s ∈ (cycle swr sc inp).final, s.scraping.get h = none)
+    (hnc : (cycle swr sc inp).crashed = false) :
+    ∃ (c3 : CS) (need : Space), (cycle swr sc inp).final = c3.shards ∧ 0 ≤ need.proc ∧ 0 ≤ need.head ∧
+      (cycle swr sc inp).scales = earlyScales inp ++ [clamp inp.opt (tryScaleUp inp.opt c3.shards need)] := by
+  have heq := cycle_eq_finish swr sc inp hne
+  generalize hc2 : (alleviate swr inp.opt sc (startCS inp)) = r2 at heq
+  obtain ⟨c2, need1⟩ := r2
+  have hn1 := alleviate_need_nonneg swr inp.opt sc (startCS inp)
+  rw [hc2] at hn1
+  simp only at heq hn1
+  have hassign : assign inp.opt inp.active (globalOf (infos0 inp) inp.explore) sc c2 =
+      assignLoop inp.opt (scrapingSetOf c2.shards) (globalOf (infos0 inp) inp.explore)
+        (uniq (sc.assign.filter inp.active.contains)) c2 sc.picks {} := rfl
+  generalize hc3 : assign inp.opt inp.active (globalOf (infos0 inp) inp.explore) sc c2 = r3 at heq hassign
+  obtain ⟨c3, picks, need2⟩ := r3
+  simp only at heq
+  rw [heq] at hnc hun ⊢
+  obtain ⟨hc3c, hgrow⟩ := finish_grows sc inp _ c3 picks _ hnc
+  have hloop := assignLoop_need (o := inp.opt) (scr := scrapingSetOf c2.shards) hnn
+    (uniq (sc.assign.filter inp.active.contains)) c2 sc.picks {} (uniq_nodup _) (keysIn_init c2 _)
+  rw [← hassign] at hloop
+  obtain ⟨hm1, hm2, hcase⟩ := hloop
+  have hmem : h ∈ uniq (sc.assign.filter inp.active.contains) := by
+    rw [mem_uniq, List.mem_filter]
+    exact ⟨hfull h ha, by simpa using ha⟩
+  have nokey3 : ¬ HasKey c3 h := by
+    intro hk
+    obtain ⟨j, s, hs, hg⟩ := hasKey_of_grows hgrow hk
+    exact hg (hun s (List.mem_of_getElem? hs))
+  have hscr : (scrapingSetOf c2.shards).contains h = false := by
+    cases hc : (scrapingSetOf c2.shards).contains h with
+    | false => rfl
+    | true =>
+      exfalso
+      unfold scrapingSetOf at hc
+      simp only [List.contains_eq_mem, List.mem_flatten, List.mem_map, decide_eq_true_eq] at hc
+      obtain ⟨ks, ⟨s, hs, rfl⟩, hk⟩ := hc
+      obtain ⟨j, hj⟩ := List.getElem?_of_mem hs
+      obtain ⟨v, hv⟩ := AL.mem_keys_get _ _ hk
+      have g23 : Grows c2.shards c3 := by
+        have := assign_pres (grows_presA inp.opt (globalOf (infos0 inp) inp.explore) c2.shards) inp.active sc c2
+          (by have := grows_refl c2.shards c2.log c2.crashed; cases c2; simpa using this)
+        rw [hc3] at this; exact this
+      exact nokey3 (hasKey_of_grows g23 ⟨j, s, hj, by rw [hv]; simp⟩)
+  rcases hcase hc3c h hmem hscr hskip hbig with hk | ⟨hh, hp⟩
+  · exact absurd hk nokey3
+  · simp only at hh hp hm1 hm2
+    have hgl := hnn h
+    have hup : Gen.needUp (Gen.spaceIsZero (spaceAdd need1 need2)) = true := by
+      rw [Sites.needUp_iff]
+      cases hz : Gen.spaceIsZero (spaceAdd need1 need2) with
+      | false => rfl
+      | true =>
+        rw [Sites.spaceIsZero_iff] at hz
+        simp only [spaceAdd, Gen.spaceAddHead, Gen.spaceAddProc] at hz
+        have e1 : (0 : Int) + (globalOf (infos0 inp) inp.explore h).series ≤ need2.head := hh
+        have e2 : (0 : Int) + (globalOf (infos0 inp) inp.explore h).total ≤ need2.proc := hp
+        omega
+    obtain ⟨hfin, hscales⟩ := finish_up sc inp _ c3 picks _ hnc hup
+    refine ⟨c3, spaceAdd need1 need2, hfin, ?_, ?_, hscales⟩
+    · simp only [spaceAdd, Gen.spaceAddHead, Gen.spaceAddProc]
+      have e2 : (0 : Int) ≤ need2.proc := hm2
+      omega
+    · simp only [spaceAdd, Gen.spaceAddHead, Gen.spaceAddProc]
+      have e1 : (0 : Int) ≤ need2.head := hm1
+      omega
+
+end Kvass.Coord
